@@ -749,6 +749,52 @@ macro_rules! arch_driver {
                         drop(g);
                     } i += 1; )+
                 }
+                BKind::FindBorrowOneOfS => {
+                    let k = any(acc.key.expect("entity access needs a key"));
+                    let mut i = 0usize;
+                    $( if i == col {
+                        ecs_find_borrow!(w, k, |c: &OneOf<$C, Nope>, e: &Entity<$A>| {
+                            body(BObs { raw: Some(e.to_raw()), vals: vec![c.get()] });
+                        });
+                    } i += 1; )+
+                }
+                BKind::FindBorrowOneOfM => {
+                    let k = Entity::<$A>::from_any(any(acc.key.expect("entity access needs a key")));
+                    let mut i = 0usize;
+                    $( if i == col {
+                        ecs_find_borrow!(w, k, |e: &Entity<$A>, c: &mut OneOf<Nope, $C>| {
+                            let old = c.get();
+                            c.set(val);
+                            body(BObs { raw: Some(e.to_raw()), vals: vec![old] });
+                        });
+                    } i += 1; )+
+                }
+                BKind::IterBorrowOneOfS => {
+                    let mut i = 0usize;
+                    $( if i == col {
+                        let mut n = 0usize;
+                        ecs_iter_borrow!(w, |e: &Entity<$A>, c: &OneOf<Nope, $C>| {
+                            if n == 0 {
+                                body(BObs { raw: Some(e.to_raw()), vals: vec![c.get()] });
+                            }
+                            n += 1;
+                        });
+                    } i += 1; )+
+                }
+                BKind::IterBorrowOneOfM => {
+                    let mut i = 0usize;
+                    $( if i == col {
+                        let mut n = 0usize;
+                        ecs_iter_borrow!(w, |c: &mut OneOf<$C, Nope>, e: &Entity<$A>| {
+                            if n == 0 {
+                                let old = c.get();
+                                c.set(val);
+                                body(BObs { raw: Some(e.to_raw()), vals: vec![old] });
+                            }
+                            n += 1;
+                        });
+                    } i += 1; )+
+                }
                 BKind::CloneWorld => unreachable!("clone is world level"),
             }
         }
